@@ -1,0 +1,44 @@
+//go:build verif
+
+package service
+
+import "time"
+
+// Verification accessors (compiled only with -tags verif; add-only, no existing line touched).
+// VerifParser gives exact control over read boundaries and the clock of a connection's
+// frame extractor / sub-package reassembler, which *net.TCPConn does not.
+
+type VerifParser struct{ p *packageParse }
+
+func NewVerifParser() *VerifParser { return &VerifParser{p: newPackageParse()} }
+
+// Feed is exactly what connection.reader does with the bytes of one Read.
+func (v *VerifParser) Feed(data []byte) ([]*Message, error) { return v.p.parse(data) }
+
+// Unpack runs the frame extractor alone.
+func (v *VerifParser) Unpack(data []byte) ([]*Message, error) { return v.p.unpack(data) }
+
+func (v *VerifParser) HistoryLen() int { return len(v.p.historyData) }
+func (v *VerifParser) HistoryCap() int { return cap(v.p.historyData) }
+
+// Age moves every pending transfer d into the past (clock control without sleeping).
+func (v *VerifParser) Age(d time.Duration) {
+	for _, r := range v.p.timeoutRecord {
+		r.createTime = r.createTime.Add(-d)
+		r.updateTime = r.updateTime.Add(-d)
+	}
+}
+
+// Pending reports message id -> number of slots of every transfer in progress.
+func (v *VerifParser) Pending() map[uint16]int {
+	out := map[uint16]int{}
+	for id, slots := range v.p.subcontractingRecord {
+		out[id] = len(slots)
+	}
+	return out
+}
+
+func (v *VerifParser) Clear() { v.p.clear() }
+
+// VerifHasComplete exposes Message.hasComplete (the default filter for handlers and replies).
+func VerifHasComplete(m *Message) bool { return m.hasComplete() }
